@@ -1,6 +1,7 @@
 package main
 
 import (
+	"sync"
 	"fmt"
 	"go/constant"
 	"go/token"
@@ -1074,14 +1075,21 @@ func (vc *VC) sentinel(key string) string {
 		// distinct positive handles: 1000 + index by declaration order is fragile; use an injective tag function
 		vc.decls = append(vc.decls, fmt.Sprintf("(declare-const %s Int)", name))
 		vc.decls = append(vc.decls, fmt.Sprintf("(assert (= %s (sentinel_of %d)))", name, len(vc.sentinelList())))
+		sentinelsMu.Lock()
 		sentinels[vc] = append(sentinels[vc], name)
+		sentinelsMu.Unlock()
 	}
 	return name
 }
 
 var sentinels = map[*VC][]string{}
+var sentinelsMu sync.RWMutex
 
-func (vc *VC) sentinelList() []string { return sentinels[vc] }
+func (vc *VC) sentinelList() []string {
+	sentinelsMu.RLock()
+	defer sentinelsMu.RUnlock()
+	return append([]string(nil), sentinels[vc]...)
+}
 
 // poolNewStore: storing a function whose contract says `pool_new K` into the New field of a sync.Pool
 // makes that pool a kind-K pool (poolkind is what sync.Pool.Get's contract is keyed on).
